@@ -63,17 +63,16 @@ Proof. exact Proofs.handle_throw_uncatchable_split. Qed.
 (* ---- 3. idle ------------------------------------------------------------------------------ *)
 
 (* Interrupt(v) while idle: the next call (RunProgram or a Callable), whatever the program, returns the
-   InterruptedError carrying v before its first instruction, and leaves the runtime idle with the flag cleared —
-   in the specification and in goja as it is. *)
-Theorem idle_interrupt_next_call : forall fx k cl fuel e p v,
-  let c := mkCfg fx k cl None in
+   InterruptedError carrying v before its first instruction, and leaves the runtime idle with the flag cleared. *)
+Theorem idle_interrupt_next_call : forall k cl fuel e p v,
+  let c := mkCfg k cl None in
   exists s', run_top c fuel e p (interrupt v idle0) = (OIntr v, s')
              /\ log s' = [] /\ pcnt s' = 0 /\ late s' = 0 /\ is_idle s' = true.
 Proof. exact Proofs.idle_interrupt_next. Qed.
 
 (* ... unless ClearInterrupt was called: then the call runs as on a fresh runtime *)
-Theorem idle_interrupt_cleared : forall fx k cl fuel e p v,
-  let c := mkCfg fx k cl None in
+Theorem idle_interrupt_cleared : forall k cl fuel e p v,
+  let c := mkCfg k cl None in
   run_top c fuel e p (clear_interrupt (interrupt v idle0)) = run_top c fuel e p (mkSt 0 [] [] [] false v [] 0 0 0).
 Proof. exact Proofs.idle_interrupt_cleared_runs. Qed.
 
@@ -95,36 +94,26 @@ Proof. exact Proofs.no_race_protocol. Qed.
 
 (* ---- 5. cleanly --------------------------------------------------------------------------- *)
 
-(* For EVERY program that does not resume a generator / async function (the region of the open finding F16) —
-   and for every program at all in the specification (fixed = true) —, every entry point, every interrupt
-   position (k-th probe, or another goroutine at any micro-step), with or without ClearInterrupt, from any idle
-   state: after the API call returns, callStack, tryStack and iterStack are back at their idle values whatever
-   the outcome; if it returned the InterruptedError, the job queue has been dropped and the flag is cleared. *)
+(* For EVERY program (generator resumptions, async functions and their continuations, promise jobs, iterators
+   with return(), nested RunString, Callables ... included), every entry point, every interrupt position (k-th
+   probe, or another goroutine at any micro-step), with or without ClearInterrupt, from any state whose stacks
+   are idle: after the API call returns, callStack, tryStack and iterStack are back at their idle values whatever
+   the outcome; if it returned the InterruptedError, the job queue has been dropped and the flag is cleared.
+   (No guard: F16 was repaired by 195c9cc, F20 by 22853aa; the former refutation witnesses are now instances.) *)
 Theorem interrupt_clean : forall c fuel e p s o s',
-  (fixed c = true \/ no_gen_c p = true) ->
-  cs s = 0 -> ts s = [] -> its s = [] -> jq s = [] ->
+  cs s = 0 -> ts s = [] -> its s = [] ->
   run_top c fuel e p s = (o, s') ->
   cs s' = 0 /\ ts s' = [] /\ its s' = [] /\ (forall t, o = OIntr t -> is_idle s' = true).
 Proof. exact Clean.interrupt_clean_from. Qed.
 
-(* outside the guard it is refuted on the current tree (F16): generator resumption, async continuation *)
 Definition w_gen : code := CCons (IGen (SCons (CCons IProbe CNil) (SCons (CCons IProbe CNil) SNil))) CNil.
 Definition w_async : code := CCons (IAsync (CCons IProbe CNil) (CCons IProbe CNil)) CNil.
 Definition w_iter : code := CCons (IForOf (Some 11%N) (SCons (CCons IProbe CNil) (SCons (CCons IProbe CNil) SNil))) CNil.
 
-Lemma interrupt_clean_refuted :
-  (let '(o, s) := run_top (mkCfg false 2 false None) 8 ERun w_gen idle0 in
-   o = OIntr 1002%N /\ idle_vec s = [2; 1; 0; 0; 1]) /\
-  (let '(o, s) := run_top (mkCfg false 2 false None) 8 ERun w_async idle0 in
-   o = OIntr 1002%N /\ idle_vec s = [1; 1; 0; 0; 1]).
-Proof. vm_compute. repeat split. Qed.
-
-(* the specification is clean on the same inputs; the former F20 witness (for-of over an iterator with a
-   script return(), repaired by 22853aa) is now clean as-is, with no return() event in the log *)
-Lemma interrupt_clean_spec_on_witnesses :
-  is_idle (snd (run_top (mkCfg true 2 false None) 8 ERun w_gen idle0)) = true /\
-  is_idle (snd (run_top (mkCfg true 2 false None) 8 ERun w_async idle0)) = true /\
-  (let '(o, s) := run_top (mkCfg false 1 false None) 8 ERun w_iter idle0 in
+Example interrupt_clean_on_former_witnesses :
+  (let '(o, s) := run_top (mkCfg 2 false None) 8 ERun w_gen idle0 in o = OIntr 1002%N /\ is_idle s = true) /\
+  (let '(o, s) := run_top (mkCfg 2 false None) 8 ERun w_async idle0 in o = OIntr 1002%N /\ is_idle s = true) /\
+  (let '(o, s) := run_top (mkCfg 1 false None) 8 ERun w_iter idle0 in
    o = OIntr 1001%N /\ is_idle s = true /\ rev (log s) = [7%N]).
 Proof. vm_compute. repeat split. Qed.
 
@@ -132,7 +121,7 @@ Proof. vm_compute. repeat split. Qed.
 
 (* the bound 1 is attained: another goroutine fires between the poll and the exec of the second instruction *)
 Example prompt_bound_tight :
-  let '(o, s) := run_top (mkCfg true 0 false (Some (3, 55%N))) 8 ERun (CCons (IEv 8%N) (CCons (IEv 16%N) (CCons (IEv 24%N) CNil))) idle0 in
+  let '(o, s) := run_top (mkCfg 0 false (Some (3, 55%N))) 8 ERun (CCons (IEv 8%N) (CCons (IEv 16%N) (CCons (IEv 24%N) CNil))) idle0 in
   o = OIntr 55%N /\ late s = 1 /\ rev (log s) = [8%N; 16%N] /\ is_idle s = true.
 Proof. vm_compute. repeat split. Qed.
 
@@ -141,7 +130,7 @@ Example no_handler_runs :
   let p := CCons (IJob (CCons (IEv 12%N) CNil))
            (CCons (ITry (CCons (INat NCb (SCons (CCons IProbe (CCons (IEv 8%N) CNil)) SNil)) CNil)
                         true (CCons (IEv 17%N) CNil) true (CCons (IEv 18%N) CNil)) (CCons (IEv 24%N) CNil)) in
-  let '(o, s) := run_top (mkCfg false 1 false None) 8 ECall p idle0 in
+  let '(o, s) := run_top (mkCfg 1 false None) 8 ECall p idle0 in
   o = OIntr 1001%N /\ rev (log s) = [7%N] /\ is_idle s = true.
 Proof. vm_compute. repeat split. Qed.
 
@@ -174,4 +163,3 @@ Print Assumptions idle_interrupt_next_call.
 Print Assumptions idle_interrupt_cleared.
 Print Assumptions no_race_flag.
 Print Assumptions interrupt_clean.
-Print Assumptions interrupt_clean_refuted.
